@@ -401,7 +401,7 @@ func TestVerifC33Conc(t *testing.T) {
 	}
 	r.SetRule("Each case: one directory, 1-2 flipper goroutines owning disjoint hash slots and flipping their authority (Become with strictly increasing generation / Lose) through a PRNG sequence paced by worker progress, 2-6 workers issuing touch/register/commit/abort/unregister/expire/lookup with the target generation they last read; routes tagged with target generation and sending operation. Non-trivial = case in which at least one operation overlapped a flip of its own slot AND at least one call that started after a later flip had returned was (correctly) rejected. Distinct = (flippers, workers, shards, overlap count, must-fail count).")
 	r.Assume("operation sequences per goroutine are a pure function of (seed, case, goroutine); interleavings are up to the scheduler (race build, GOMAXPROCS>=8). Only happens-before facts on the recorder's logical clock and the flipper's sole-writer knowledge are asserted; overlapping calls are unconstrained.")
-	nCases := r.N(150, 2500)
+	nCases := r.N(300, 4000)
 	for i := 0; i < nCases; i++ {
 		if r.Skip(i) {
 			continue
